@@ -215,7 +215,7 @@ func (fr *Frame) execInstr(st *State, instr ssa.Instruction) {
 			fr.setVal(x, res[0])
 		}
 	case *ssa.Defer:
-		fr.defers = append(fr.defers, x.Call)
+		fr.defers = append(fr.defers, x.Common())
 		fr.deferPos = append(fr.deferPos, x.Pos())
 		if x.Block() != fr.fn.Blocks[0] {
 			// conditional defers are executed unconditionally by this model
@@ -223,8 +223,7 @@ func (fr *Frame) execInstr(st *State, instr ssa.Instruction) {
 		}
 	case *ssa.RunDefers:
 		for i := len(fr.defers) - 1; i >= 0; i-- {
-			c := fr.defers[i]
-			fr.doCall(st, nil, &c, fr.deferPos[i])
+			fr.doCall(st, nil, fr.defers[i], fr.deferPos[i])
 		}
 	case *ssa.Go:
 		fc.note("goroutine creation in " + funcKey(fr.fn) + " is a skip (spawned body verified separately if under contract)")
